@@ -5,6 +5,7 @@ package PKG
 // replayed: they read the solver's assignment from the file named by $VERIF_REPLAY.
 
 import (
+	"bytes"
 	"encoding/json"
 	"fmt"
 	"os"
@@ -36,7 +37,9 @@ func vLoad() *vReplayT {
 		if err != nil {
 			panic(err)
 		}
-		if err := json.Unmarshal(b, vReplay); err != nil {
+		dec := json.NewDecoder(bytes.NewReader(b))
+		dec.UseNumber() // 64-bit integers must not go through float64
+		if err := dec.Decode(vReplay); err != nil {
 			panic(err)
 		}
 	}
@@ -56,16 +59,18 @@ func vsymStr(name string) string {
 func vsymStrN(name string, maxLen int) string { return vsymStr(name) }
 func vsymInt(name string, lo, hi int) int {
 	if v, ok := vLoad().Inputs[name]; ok {
-		if f, ok := v.(float64); ok {
-			return int(f)
+		if f, ok := v.(json.Number); ok {
+			n, _ := f.Int64()
+			return int(n)
 		}
 	}
 	return lo
 }
 func vsymInt64(name string, lo, hi int64) int64 {
 	if v, ok := vLoad().Inputs[name]; ok {
-		if f, ok := v.(float64); ok {
-			return int64(f)
+		if f, ok := v.(json.Number); ok {
+			n, _ := f.Int64()
+			return n
 		}
 	}
 	return lo
